@@ -121,7 +121,7 @@ def run(ctx):
     idents = {
         # look-alikes: same subject, issuer and serial number, different keys
         "good": certs.identity("c11-good", "ec", serial=777011),
-        "other": certs.identity("c11-other", "rsa", serial=777011),
+        "other": certs.identity("c11-other", "rsa", serial=777011, validity="expired"),
         "tampered": certs.identity("c11-tampered", "ec", tamper="bool"),
     }
     # the same situations for a client that runs CA verification *next to* TOFU (verify_ssl=True with a context
